@@ -83,6 +83,8 @@ def nesting(text):
 
 def classify(ctx, o, family, boundary, case):
     """family: tuple of allowed exception classes at this boundary."""
+    if len(ctx.samples) < 6 and ctx.rng.random() < 0.01:
+        ctx.sample({"boundary": boundary, "input": repr(case.get("text", case.get("ops")))[:160], "outcome": o.desc()[:120]})
     if o.ok:
         ctx.cell("boundary_outcomes", "%s ok" % boundary)
         return True
@@ -202,8 +204,12 @@ def mutate_ops(r, ops):
         return r.choice([[], [1], ["add"], [None], [[]], [{}], 5, "[]", {"op": "add"}, [{"op": None}], [{"op": "add", "path": None, "value": 1}], None, [{"op": "nop", "path": ""}]])
     i = r.randrange(len(ops))
     op = ops[i]
+    if not isinstance(op, dict):
+        ops[i] = {"op": "add", "path": "/a", "value": 1}
+        return ops
     if k < 0.3:
-        op.pop(r.choice(list(op)), None)
+        if op:
+            op.pop(r.choice(list(op)), None)
     elif k < 0.5:
         key = r.choice(["path", "from", "op", "value"])
         op[key] = r.choice([None, 1, [], {}, True, "", "a", "/", "~", "/~", "/~2", "/a\\", "/\\u00", "/%zz", "/-/-", "/#", "/a/#b", "/" + "9" * 25, "-1", " /a", "/\ud800" if False else "/é"])
@@ -281,7 +287,7 @@ def run(spec, ctx):
             k = r.random()
             if k < 0.8:
                 for _ in range(r.randint(1, 2)):
-                    ops = mutate_ops(r, ops) if isinstance(ops, list) else ops
+                    ops = mutate_ops(r, ops) if (isinstance(ops, list) and all(isinstance(o, dict) for o in ops)) else ops
             patch_case(ctx, ops, [doc] + r.sample(ROOT_DOCS, 3))
     else:
         for text in DIRECTED_QUERIES:
